@@ -894,6 +894,15 @@ def evo_case(ctx, sc):
         if not ok:
             fail("list_memoized_functions raised after the code base evolved", "list_memoized_functions", error=v,
                  cluster=cname, stored_reference=gqn)
+    if sc["evo"] in ("edit", "same", "caller_body"):
+        # the callee's old entry is still in the store under its stored name: a memento query through the reference the
+        # caller's memento carries for it (external after an edit) finds it
+        oki, inv = obs1.get("invocation_entries", [True, None])
+        if not oki:
+            fail("a memento query through a recorded invocation's reference raised", "memento", error=inv, stored_reference=gqn)
+        elif inv and not all(found for _, found in inv):
+            fail("the stored entry of a recorded invocation is not found through the reference the caller's memento carries", "memento",
+                 got=inv, stored_reference=gqn)
     if obs1["qn"] != fqn:
         raise Infra("the pinned caller changed its name: %r -> %r" % (fqn, obs1["qn"]))
     if obs1["call"][0] and (obs1["executed"] != 0 or obs1["call"][1] != obs0["call"][1]):
